@@ -459,6 +459,9 @@ def decodeDecoders (opts : DecOpts) (ver : Nat) (mesh : Mesh) (posAtt : Option N
 /-- `PointCloudDecoder::DecodePointAttributes` of `MeshEdgebreakerDecoder` -/
 def decodeAttributes (opts : DecOpts) (mesh : Mesh) : DecM (List Attribute) := do
   let ver ← version
+  -- offset tag for the structure-aware corruption campaigns (tools/props/robustgen.py): the decoder count byte is
+  -- followed by (att_data_id, decoder type, traversal method) per decoder, then the descriptors of every decoder
+  tag s!"at:att_decoders:{← remaining}"
   let numDecoders ← rdU8
   let decoders ← createAttributeDecoders ver mesh.atts.size numDecoders
   alloc "decoder.attributes_decoders" (8 * numDecoders)
